@@ -195,11 +195,6 @@ class Workspace(AbstractContextManager):
         writable = self.geoh5.mode in ["r+", "a"] and self._opened_as != "r"
         try:
             if writable:
-                # entities removed from their parent and dropped since the last
-                # listing: delete their nodes before the file is closed
-                self.remove_none_referents(self._data, "Data")
-                self.remove_none_referents(self._objects, "Objects")
-
                 for entity in self.groups:
                     if isinstance(entity, Concatenator) and self.repack:
                         self.update_attribute(entity, "concatenated_attributes")
